@@ -491,7 +491,7 @@ Definition xsd_tz (s : str) : bool :=
 
 (** Year: optional minus, at least four digits, no leading zero beyond four, not 0000. *)
 Definition xsd_year (s : str) : option (Z * str) :=
-  let body := match s with 45%N :: r => r | _ => s end in
+  let body := match s with c :: r => if (c =? 45)%N then r else s | [] => s end in
   let ds := take_while is_digit body in
   let rest := drop_while is_digit body in
   let n := length ds in
